@@ -40,7 +40,7 @@ FAST_MENU = [("clique", 2), ("clique", 2), ("clique", 3), ("clique", 3), ("cliqu
 CUSTOM_MENU = [
     ((2,), "bare", "bare"), ((2,), "bare", "bare"), ((2,), "path", "list1"), ((3,), "path", "per-edge"), ((3,), "path", "homog"),
     ((3,), "clique", "homog"), ((3,), "clique", "per-edge"), ((1, 2), "star", "per-edge"), ((1, 2), "clique", "homog"),
-    ((2, 2), "cycle", "per-edge"), ((2, 2), "diamond", "per-edge"), ((2, 2, 1), "chord", "per-edge"), ((1, 1, 1), "clique", "per-edge"),
+    ((2, 2), "cycle", "per-edge"), ((2, 2), "diamond", "per-edge"), ((3,), "clique", "generator"), ((2, 1), "path", "iter"), ((4,), "cycle", "generator"), ((2, 2, 1), "chord", "per-edge"), ((1, 1, 1), "clique", "per-edge"),
     ((1, 1), "bare", "bare"), ((1, 3), "star", "homog"), ((4,), "clique", "homog"), ((2, 1), "path", "per-edge"),
 ]
 
@@ -96,16 +96,25 @@ class Recorder:
 
         def names():
             self.name_calls[j] += 1
+            if names.oneshot == "generator":
+                return (x for x in names.rows)      # a fresh one-shot generator per call
+            if names.oneshot == "iter":
+                return iter(list(names.rows))
             return names.value
+        names.oneshot = None
         if style == "bare":
             names.value = "m%d-bare" % j
             names.rows = ["m%d-bare" % j]
         elif style == "homog" or style == "list1":
             names.rows = ["m%d" % j] * nedges
             names.value = tuple(names.rows) if tuple_result else list(names.rows)
-        else:
+        elif style == "per-edge":
             names.rows = ["m%d-e%d" % (j, i) for i in range(nedges)]
             names.value = tuple(names.rows) if tuple_result else list(names.rows)
+        else:   # "generator" / "iter": per-edge names handed over as a one-shot iterable (a fresh one at every call)
+            names.rows = ["m%d-g%d" % (j, i) for i in range(nedges)]
+            names.value = None
+            names.oneshot = style
         return names
 
 
